@@ -221,7 +221,10 @@ class Run:
         os.makedirs(EVID, exist_ok=True)
         with open(os.path.join(EVID, self.pid + '.json'), 'w') as f:
             json.dump(ev, f, indent=1)
+        seen = set()
         for k, what in self.known_hits:
+            if k.get('key') in seen: continue
+            seen.add(k.get('key'))
             print('KNOWN-FINDING: property=%s %s [%s]' % (self.pid, k.get('text', what), k.get('key')))
         for v in self.violations:
             print('VIOLATION property=%s replay=%s' % (self.pid, v['replay']))
